@@ -20,7 +20,7 @@ fn c13(c: &vsexp::Sexp) -> vsexp::Sexp {
     match c.at(0).num() {
         0..=6 | 16 => errs::run(c),
         7..=9 => glue::run(c),
-        10..=15 => fns::run(c),
+        10..=15 | 17 => fns::run(c),
         _ => vsexp::Lst(vec![]),
     }
 }
